@@ -291,6 +291,32 @@ class HB:
         return 1
 
 
+class SK(str):
+    """A str subclass (StrEnum-like) used as a dict key: hashing / comparing it is user code."""
+
+    _label = "SK"
+
+    def __hash__(self):
+        note("str.__hash__", self._label)
+        return str.__hash__(self)
+
+    def __eq__(self, o):
+        note("str.__eq__", self._label)
+        return str.__eq__(self, o)
+
+    def __ne__(self, o):
+        note("str.__ne__", self._label)
+        return str.__ne__(self, o)
+
+    def __str__(self):
+        note("str.__str__", self._label)
+        return str.__str__(self)
+
+    def __repr__(self):
+        note("str.__repr__", self._label)
+        return str.__repr__(self)
+
+
 class Meta(type):
     def __instancecheck__(cls, obj):
         note("metaclass.__instancecheck__", cls.__name__)
@@ -314,9 +340,9 @@ class MI(metaclass=Meta):
 KINDS = {
     "GA": "GA('{l}')", "GN": "GN('{l}')", "CP": "CP('{l}')", "CPlie": "CPlie('{l}')", "CPraise": "CPraise('{l}')", "Lazy": "Lazy('{l}')",
     "DS": "DS('{l}')", "TL": "TL([1, 2])", "TD": "TD(a=1)", "TS": "TS({1})", "TT": "TT((1, 2))", "HB": "HB('{l}')", "MI": "MI('{l}')",
-    "MIclass": "MI", "GAcall": "GAcall('{l}')", "GNcall": "GNcall('{l}')", "GNfab": "GNfab('{l}')",
+    "MIclass": "MI", "GAcall": "GAcall('{l}')", "GNcall": "GNcall('{l}')", "GNfab": "GNfab('{l}')", "SK": "SK('key')",
 }
-HASHABLE = {"GA", "GN", "CP", "CPlie", "CPraise", "Lazy", "DS", "TT", "HB", "MI", "MIclass", "GAcall", "GNcall", "GNfab"}
+HASHABLE = {"SK", "GA", "GN", "CP", "CPlie", "CPraise", "Lazy", "DS", "TT", "HB", "MI", "MIclass", "GAcall", "GNcall", "GNfab"}
 CALLABLE = {"HB", "GAcall", "GNcall", "GNfab", "MIclass"}
 
 
@@ -324,8 +350,8 @@ def mk(kind, label):
     ARMED.add(kind)
     if kind == "MIclass":
         return MI
-    if kind in ("TL", "TD", "TS", "TT"):
-        obj = {"TL": lambda: TL([1, 2]), "TD": lambda: TD(a=1), "TS": lambda: TS({1}), "TT": lambda: TT((1, 2))}[kind]()
+    if kind in ("TL", "TD", "TS", "TT", "SK"):
+        obj = {"TL": lambda: TL([1, 2]), "TD": lambda: TD(a=1), "TS": lambda: TS({1}), "TT": lambda: TT((1, 2)), "SK": lambda: SK("key")}[kind]()
         obj._label = label
         return obj
     return globals()[kind](label)
